@@ -238,6 +238,15 @@ class C17(Prop):
             "check_times": ("check_times (time_t mtime, const char *nm)\n{", "/*\n * Is anything a loaded",
                             "check_times(time_tmtime,constchar*nm){structstatst;if(stat(nm,&st)==-1)return-1;"
                             "if(st.st_mtime>mtime){return0;}return1;}"),
+            "inherited_program_newer": ("inherited_program_newer (time_t mtime, program_t * prog)\n{", "/*\n * Is a loaded (inherited) program no longer",
+                                        "inherited_program_newer(time_tmtime,program_t*prog){charbin_name[PATH_MAX];char*bn=bin_name;size_tlen;inti;"
+                                        "if(prog->file_info){intend=prog->file_info[1];for(i=2;i+1<end;i+=2){intid=prog->file_info[i+1];"
+                                        "if(id>0&&id<=(int)prog->num_strings&&check_times(mtime,prog->strings[id-1])==0)return1;}}"
+                                        "if(prog->name&&strlen(CONFIG_STR(__SAVE_BINARIES_DIR__))+strlen(prog->name)+2<sizeof(bin_name)){"
+                                        "sprintf(bn,\"%s/%s\",CONFIG_STR(__SAVE_BINARIES_DIR__),prog->name);if(bn[0]=='/')bn++;len=strlen(bn);"
+                                        "bn[len-1]='b';if(check_times(mtime,bn)==0)return1;}"
+                                        "for(i=0;i<(int)prog->num_inherited;i++){if(inherited_program_newer(mtime,prog->inherit[i].prog))return1;}"
+                                        "return0;}"),
             "inherited_program_outdated": ("inherited_program_outdated (program_t * prog)\n{", "/*\n * Routines to do some hacking",
                                            "inherited_program_outdated(program_t*prog){object_t*ob;inti;"
                                            "if(!prog->name||!(ob=find_object_by_name(prog->name))||ob->prog!=prog)return1;"
@@ -389,6 +398,47 @@ class C17(Prop):
         for c in cases:
             ms.append(E.Case(c.id, c.lines + ["--"] + self.impl_cache.get(c.id, [])))
         return E.nvdrive(self.id, "model", E.cases_text(ms))
+
+    def shrink_ok(self, lines):
+        """a shrunk system case must stay a well-formed history: it removes its directory first, and everything its
+        reloads need (declaration, source, modification time of every program of the family, of their parents and of
+        their include files; the simul_efun time; the start-up) is set up before the first reload.  Otherwise the
+        replay would show a model / implementation difference of its own on an unchanged tree."""
+        first = next((i for i, l in enumerate(lines) if l.startswith(("reload ", "reloadp "))), None)
+        if first is None:
+            return True
+        head = lines[:first]
+        if not head or not head[0].startswith("clean ") or not any(l.startswith("restart ") for l in head) \
+                or not any(l.startswith("mtime /simul_efun.c ") for l in head):
+            return False
+        progs = {}
+        for l in head:
+            t = l.split()
+            if t[0] == "prog":
+                kv = dict(x.split("=", 1) for x in t[2:] if "=" in x)
+                progs[t[1]] = kv
+        have_file = set(l.split()[1].lstrip("/") for l in head if l.startswith("file ") and len(l.split()) > 1)
+        have_time = set(l.split()[1].lstrip("/") for l in head if l.startswith("mtime ") and len(l.split()) > 1)
+        need = set()
+        for l in lines:
+            t = l.split()
+            if t and t[0] in ("reload", "reloadp", "restart", "bindump"):
+                need |= set(x + ".c" for x in t[1:] if x != "|")
+        seen = set()
+        while need:
+            p = need.pop()
+            if p in seen:
+                continue
+            seen.add(p)
+            if p not in progs or p not in have_file or p not in have_time:
+                return False
+            for f in progs[p].get("inc", "-").split(","):
+                if f != "-" and (f not in have_file or f not in have_time):
+                    return False
+            for q in progs[p].get("inh", "-").split(","):
+                if q != "-":
+                    need.add(q)
+        return True
 
     # ---- generators ---------------------------------------------------------
     def boundary(self):
